@@ -2,7 +2,8 @@
 # seed_verify.sh <prop> <variant> : confirm a sub-agent's mutation in its scratch worktree and store it under /verif/seeded/
 # usage: tools/seed_verify.sh C02 A
 set -u
-P=$1; V=$2; WT=/tmp/wt_$P; OUT=$WT/_out/$V; ID=${P}_$V; D=/verif/seeded/$ID
+P=$1; V=$2; WT=${SEEDWT:-/tmp/wt_$P}; OUT=$WT/${SEEDOUT:-_out}/$V; ID=${SEEDID:-${P}_$V}; D=/verif/seeded/$ID
+# round 2: SEEDWT=/tmp/wt2_C11 SEEDOUT=_seed SEEDID=C11_C tools/seed_verify.sh C11 A
 export GOFLAGS=-mod=mod GOPROXY=off GOSUMDB=off GOTOOLCHAIN=local
 mkdir -p $D
 cp $OUT/patch.diff $D/patch.diff
@@ -12,10 +13,10 @@ DEMO=$(ls $OUT/*_test.go 2>/dev/null | head -1)
 for f in $OUT/*_test.go; do b=$(basename $f); if grep -qE "(internal|cmd)[A-Za-z0-9_/.-]*/$b" $OUT/notes.md; then DEMO=$f; break; fi; done
 [ -n "$DEMO" ] && cp $DEMO $D/
 cd $WT || exit 2
-git checkout -q -- . ; git clean -fdq -e _out
+git checkout -q -- . ; git clean -fdq -e _out -e _seed
 # where does the demo go? first "internal/..." or "cmd/..." path ending in _test.go mentioned in notes
 DEST=$(grep -oE "(internal|cmd)[A-Za-z0-9_/.-]*/$(basename $DEMO)" $OUT/notes.md | head -1)
-[ -z "$DEST" ] && { PK=$(grep -m1 '^package ' $DEMO | awk '{print $2}'); DEST=$(grep -rl --include=*.go "^package $PK\$" $WT/internal $WT/cmd 2>/dev/null | grep -v _out | head -1 | xargs dirname | sed "s|$WT/||")/$(basename $DEMO); }
+[ -z "$DEST" ] && { PK=$(grep -m1 '^package ' $DEMO | awk '{print $2}'); DEST=$(grep -rl --include=*.go "^package $PK\$" $WT/internal $WT/cmd 2>/dev/null | grep -v "_out\|_seed" | head -1 | xargs dirname | sed "s|$WT/||")/$(basename $DEMO); }
 [ -z "$DEST" ] && DEST=$(grep -ohE '(internal|cmd)[A-Za-z0-9_/.-]*_test\.go' $OUT/*.md $OUT/*.log 2>/dev/null | head -1)
 PKG=./$(dirname "$DEST")
 TESTS=$(grep -oE '^func (Test[A-Za-z0-9_]*)' $DEMO | sed 's/func //' | paste -sd'|')
@@ -41,7 +42,7 @@ done
 grep -E "^\s*--- FAIL" /tmp/seed_suite_$ID.txt | grep -v "TestClient_RunDAG\|TestWriterErrorHandling" | grep -q . && [ "$SUITE" = ok ] && echo "(non-baseline test failures above were re-run)"
 echo "SUITE=$SUITE"
 
-git checkout -q -- . ; git clean -fdq -e _out
+git checkout -q -- . ; git clean -fdq -e _out -e _seed
 echo "RESULT demo_clean_rc=$R0 build_rc=$RB demo_mut_rc=$R1 suite=$SUITE"
 } > $D/verify.log 2>&1
 tail -1 $D/verify.log
